@@ -205,7 +205,8 @@ func leafOf(a dig) dig {
 	return sha256.Sum256(x[:])
 }
 
-// Family D: OVER-LONG inclusion proofs against a root that is not the root of a genuine tree of the
+// Family D (closed by /repo commit c59ab5b; replayed on every run, a recurrence is a violation):
+// OVER-LONG inclusion proofs against a root that is not the root of a genuine tree of the
 // claimed size. ahtree.VerifyInclusion demands enough terms to reach the right-most path
 // ((i-1)>>len == (j-1)>>len) but accepts any number of further terms, and VerifyLastInclusion checks no
 // length at all: a server builds tx 4 {BlTxID 3, BlRoot R} with
